@@ -268,8 +268,17 @@ OpGetParam(p)          == [op |-> "GetParam", id |-> p, ctx |-> 0]
 OpOverrideParam(p, kind, v)  == [op |-> "OverrideParam", id |-> p, ctx |-> 0, kind |-> kind, v |-> v]
 OpOverrideService(s, ctor, args) == [op |-> "OverrideService", id |-> s, ctx |-> 0, ctor |-> ctor, args |-> args]
 
+(* generated getters: G() is Get(name of the service declaring getter G) converted to its type *)
+GetterOwner(cfg, g) == CHOOSE s \in SvcNames(cfg) : ~IsTodo(cfg.services[s]) /\ cfg.services[s].getter = g
+OpGetter(g)            == [op |-> "Getter", id |-> g, ctx |-> 0]
+OpGetterIn(c, g)       == [op |-> "GetterInContext", id |-> g, ctx |-> c]
+OpMustGetter(g)        == [op |-> "MustGetter", id |-> g, ctx |-> 0]
+OpMustGetterIn(c, g)   == [op |-> "MustGetterInContext", id |-> g, ctx |-> c]
+
 Apply(st, o) ==
   CASE o.op = "Get"          -> DropBag(GetSvc(FreshBag(st), o.id))
+    [] o.op \in {"Getter", "MustGetter"} -> DropBag(GetSvc(FreshBag(st), GetterOwner(st.cfg, o.id)))
+    [] o.op \in {"GetterInContext", "MustGetterInContext"} -> StoreCtx(GetSvc(InCtx(st, o.ctx), GetterOwner(st.cfg, o.id)), o.ctx)
     [] o.op = "GetInContext" -> StoreCtx(GetSvc(InCtx(st, o.ctx), o.id), o.ctx)
     [] o.op = "GetTaggedBy"  -> DropBag(GetTaggedFrom(FreshBag(st), TaggedOrder(st.cfg, o.id), 1, <<>>))
     [] o.op = "GetTaggedByInContext" -> StoreCtx(GetTaggedFrom(InCtx(st, o.ctx), TaggedOrder(st.cfg, o.id), 1, <<>>), o.ctx)
